@@ -249,6 +249,24 @@ impl<K, V> EntryPtr<K, V> {
     }
 }
 
+#[cfg(feature = "verif_hooks")]
+impl<K, V> Entry<K, V> {
+
+    /// Offsets of the key and value slots, for the verification hook.
+    pub(crate) fn verif_offsets() -> (usize, usize) {
+        (mem::offset_of!(Entry<K, V>, key), mem::offset_of!(Entry<K, V>, value))
+    }
+}
+
+#[cfg(feature = "verif_hooks")]
+impl<K, V> EntryPtr<K, V> {
+
+    /// The raw address held by this pointer, for the verification hook.
+    pub(crate) fn verif_addr(&self) -> usize {
+        self.ptr as usize
+    }
+}
+
 #[cfg(test)]
 mod tests {
 
